@@ -138,6 +138,24 @@ def run(rep, tier, seed, replay):
     else:
         cases, shutdown, stats = G.gen(seed, tier, layouts)
     io = ltv.run_sharded(impl, cases, timeout=1500)
+    hang = {"hang_retries": 0, "hang_cleared_by_rerun": 0, "hang_reproduced": 0}
+
+    def rerun_alone(case, first):
+        """A watchdog verdict depends on wall-clock: it only counts if it reproduces when the case runs ALONE in a fresh
+        process (up to 3 attempts); a loaded machine must not produce a violation."""
+        if not (first.startswith("ERR:hang") or first.startswith("CRASH TIMEOUT")):
+            return first
+        for _ in range(3):
+            hang["hang_retries"] += 1
+            r, e, rc = ltv.run_lines(impl, [case], timeout=300)
+            out = r[0] if r else "CRASH " + ltv.crash_kind(e, rc)
+            if not (out.startswith("ERR:hang") or out.startswith("CRASH TIMEOUT")):
+                hang["hang_cleared_by_rerun"] += 1
+                return out
+        hang["hang_reproduced"] += 1
+        return first
+
+    io = [rerun_alone(c, io[i]) if i < len(io) else "MISSING" for i, c in enumerate(cases)]
     mi = [model_input(c, io[i] if i < len(io) else "MISSING", layouts) for i, c in enumerate(cases)]
     mo = ltv.run_sharded(model, mi) if model else []
     nontrivial, mism, samples = set(), 0, []
@@ -180,6 +198,7 @@ def run(rep, tier, seed, replay):
         return r[0] if r else "CRASH " + ltv.crash_kind(e, rc)
     with cf.ThreadPoolExecutor(ltv.NCPU) as ex:
         so = list(ex.map(one, shutdown))
+    so = [rerun_alone(c, o) for c, o in zip(shutdown, so)]
     for c, o in zip(shutdown, so):
         for kl, text in oracle(c, o):
             rep.violation("library shutdown (torrent::cleanup) with live connections: " + text, case=c, impl=o,
@@ -191,6 +210,7 @@ def run(rep, tier, seed, replay):
     stats = dict(stats)
     stats["distinct_pre_fault_row_shapes"] = len(pre_kinds)
     stats["params_probed_from_compiled_code"] = probed
+    stats.update(hang)
     rep.cov.update(evaluations=len(cases) + len(shutdown), distinct_nontrivial=len(nontrivial),
                    traces_validated_against_impl=len(cases) - mism,
                    rule="cases = corpus + for each of 11 scripted sessions (incoming / outgoing plain handshake, seeding with requests in "
